@@ -84,6 +84,7 @@ def opOfJson (j : Json) : Except String Op := do
         pure (a, (← (fromJson? v : Except String Int)))
       pure (.find (← argNat j "cls") (← optKey j "pk") kw)
   | "proxy" => pure (.proxy (← argNat j "o"))
+  | "cascadeFail" => pure (.cascadeFail (← natsOfJson (← j.getObjVal? "children")))
   | "markRead" => pure (.markRead (← natsOfJson (← j.getObjVal? "os")) (← natsOfJson (← j.getObjVal? "attrs")))
   | _ => throw s!"unknown op kind {k}"
 
